@@ -47,7 +47,7 @@ CHECKS.update({
         text='Bounded symbolic execution of the real colander: for every generated structure x ordered variable selection x level limit the '
              'output tree must parse as a well-formed plotfile, be accepted by the real validator, and hold exactly the kept words (identity), '
              'header numbers and restricted min/max rows.',
-        note=TRUST + 'Selections with duplicate names and allow_missing=False are outside.',
+        note=TRUST + 'Selections with duplicate names and allow_missing=False are outside. In the offset-magnitude run the strainer is wrapped (the real worker runs; the byte positions it returns are moved up by a symbolic base <= 2^40) and the level headers must list base + position; integer element types narrower than 64 bits are uninterpreted conversions.',
         design='5 C05'),
     'C15': dict(
         technique='symbolic execution of the real level iterators on symbolic payload; the execution order of the per-file tasks is a '
